@@ -160,6 +160,7 @@ func c11Property(t *rapid.T) {
 	f := &failer{t: t, prop: "C11", ops: &ops}
 	ops = append(ops, fmt.Sprintf("node fresh=%v audit=%v height=%d", fresh, audit, w.N.Height()))
 	hg := newHistGen(t, w)
+	hg.replays = 80 // every block is executed again on each crash image
 	genBlock := func(label string) *blockSpec {
 		b := &blockSpec{}
 		n := rapid.IntRange(0, 5).Draw(t, label+"-ntx")
